@@ -183,4 +183,20 @@ fire("c17-validate-not-stored", ["C17"], RDR, "        self._validate = validate
 fire("c17-validate-not-forwarded", ["C17", "C01"], RDR, "                validate=self._validate,\n", "", "reader always validates")
 silent("c17-parse-positional", ["C17", "C01", "C05"], [(RDR, "            parsed_data = self.parse(\n                raw_data,\n                validate=self._validate,\n                labelmsm=self._labelmsm,\n            )", "            parsed_data = self.parse(raw_data, self._validate, self._labelmsm)")], "positional forwarding is equivalent")
 
+# ----------------------------------------------------------------------------- C07
+fire("c07-parts-swapped", ["C07"], MSG, "message = RTCM_HDR + size + self._payload", "message = RTCM_HDR + self._payload + size")
+fire("c07-len-3-bytes", ["C07"], HLP, 'return len(payload).to_bytes(2, "big")', 'return len(payload).to_bytes(3, "big")')
+fire("c07-len-little", ["C07"], HLP, 'return len(payload).to_bytes(2, "big")', 'return len(payload).to_bytes(2, "little")')
+fire("c07-crc-little", ["C07"], HLP, 'return calc_crc24q(message).to_bytes(3, "big")', 'return calc_crc24q(message).to_bytes(3, "little")')
+fire("c07-crc-over-payload-only", ["C07"], MSG, "crc = crc2bytes(message)", "crc = crc2bytes(self._payload)")
+fire("c07-repr-slice", ["C07"], MSG, 'return f"RTCMMessage(payload={self._payload})"', 'return f"RTCMMessage(payload={self._payload[:64]})"', "repr of long messages no longer round-trips (survives the test-suite)")
+fire("c07-repr-wrong-class", ["C07"], MSG, 'return f"RTCMMessage(payload={self._payload})"', 'return f"RTCMessage(payload={self._payload})"')
+fire("c07-repr-positional-hex", ["C07"], MSG, 'return f"RTCMMessage(payload={self._payload})"', 'return f"RTCMMessage(payload={self._payload.hex()})"')
+fire("c07-hdr-const", ["C07"], CORE, 'RTCM_HDR = b"\\xd3"', 'RTCM_HDR = b"\\xd2"')
+fire("c07-payload-copy-stripped", ["C07"], MSG, "        self._payload = payload\n", "        self._payload = payload.rstrip(b\"\\x00\") if payload else payload\n", "trailing zero bytes dropped from the stored payload")
+fire("c07-getter-slice", ["C07"], MSG, "        return self._payload\n\n    @property\n    def ismsm", "        return self._payload[:1023]\n\n    @property\n    def ismsm")
+fire("c07-serialize-unknown-branch", ["C07", "C15"], MSG, "        size = len2bytes(self._payload)\n", "        size = len2bytes(self._payload)\n        if self._unknown and len(self._payload) > 512:\n            size = len2bytes(self._payload[:512])\n", "stub messages serialise differently")
+silent("c07-serialize-inline", ["C07"], [(MSG, "        size = len2bytes(self._payload)\n        message = RTCM_HDR + size + self._payload\n        crc = crc2bytes(message)\n        return message + crc", "        body = RTCM_HDR + len2bytes(self._payload) + self._payload\n        return body + crc2bytes(body)")], "equivalent")
+silent("c07-repr-conv-r", ["C07"], [(MSG, 'return f"RTCMMessage(payload={self._payload})"', 'return f"RTCMMessage(payload={self._payload!r})"')], "equivalent for bytes")
+
 VARIANTS = V
